@@ -302,11 +302,14 @@ func Check(env *Env, prop Property, tier string, verifSeed uint64, workers int) 
 			class := v0.Class
 			var shrinkLog []string
 			bestTape, bestData, bestOut := f.tape, f.data, f.out
-			shrinkBudget := 60
+			shrinkBudget := 40
 			if tier == "thorough" {
-				shrinkBudget = 200
+				shrinkBudget = 120
 			}
-			shrinkDeadline := time.Now().Add(3 * time.Minute)
+			if len(res.Violations) >= 3 {
+				shrinkBudget = 0 // enough minimised reports; the rest are reported as found
+			}
+			shrinkDeadline := time.Now().Add(90 * time.Second)
 			min, evals := tape.Shrink(f.tape, func(c []uint64) bool {
 				if time.Now().After(shrinkDeadline) {
 					return false
